@@ -38,14 +38,14 @@ type Param struct {
 }
 
 type Fn struct {
-	Recv   bool   // pointer-receiver method (the receiver comes from a package-level variable)
-	RecvU  bool   `json:",omitempty"` // the receiver type is U instead of T
+	Recv  bool // pointer-receiver method (the receiver comes from a package-level variable)
+	RecvU bool `json:",omitempty"` // the receiver type is U instead of T
 	// RecvForm: how the receiver is declared: 0 "(t *T)", 1 unnamed "(*T)", 2 blank "(_ *T)"
-	RecvForm int `json:",omitempty"`
-	Name   string `json:",omitempty"` // method name; the same name exists on both receiver types
-	Defer  bool   `json:",omitempty"` // calls the next function of the chain in a deferred call (its frame is then reported at its closing brace)
-	InB    bool   `json:",omitempty"` // declared in b.go instead of main.go: a traceback walks through both files in any pattern
-	Params []Param
+	RecvForm int    `json:",omitempty"`
+	Name     string `json:",omitempty"` // method name; the same name exists on both receiver types
+	Defer    bool   `json:",omitempty"` // calls the next function of the chain in a deferred call (its frame is then reported at its closing brace)
+	InB      bool   `json:",omitempty"` // declared in b.go instead of main.go: a traceback walks through both files in any pattern
+	Params   []Param
 }
 
 type Chain struct{ Funcs []Fn }
